@@ -264,11 +264,15 @@ def justify_raise(setup, exc):
     n = setup.steps
     j = 0
     pm = None
-    for cand in range(n - 1, 0, -1):
-        st, res = setup.run(steps=cand)
+    lo, hi = 1, n - 1  # runs are deterministic prefixes of each other: "the j-step run returns" is monotone in j
+    while lo <= hi:
+        mid = (lo + hi) // 2
+        st, res = setup.run(steps=mid)
         if st == "ok":
-            j, pm = cand, res
-            break
+            j, pm = mid, res
+            lo = mid + 1
+        else:
+            hi = mid - 1
     tolm = 1e-9
     if j == 0:
         # the very first step fails: initial state known from the conditions
